@@ -17,7 +17,11 @@ CFG = {
         "Clear = 0, keys strictly ascending so Range/Keys ascend, the lazy constructor runs exactly once per successful insert "
         "and never otherwise; (2) the history checker lin_check (DFS over minimal pending operations with a dead-configuration "
         "cache) is sound and complete for linearizability w.r.t. the map and set specs, cutting at quiescent points is exact "
-        "(lin_segments), and range_ok_b decides the Range clause. NOT proved: that the concurrent Go code is linearizable. Real "
+        "(lin_segments), and range_ok_b decides the Range clause; (3) for an executable small-step model of the optimistic bottom-lane "
+        "algorithm (LazySkip.v: find, lock pred, validate, link, fullyLinked; mark under lock, unlink; contains reads flags), for all "
+        "programs and ALL schedules of its atomic steps: next pointers always lead to strictly larger keys, so the reachable chain is "
+        "strictly sorted with at most one node per key, and the abstract set {key | fullyLinked, not marked} changes only at the "
+        "fullyLinked := true step of an Add and the marked := true step of a Remove. NOT proved: that the concurrent Go code is linearizable. Real "
         "interleavings are sampled, not proved: every check run records small concurrent histories of the real code (2-8 "
         "goroutines, 1-3 keys, 4-8 operations each, fresh structure per round, quiescent Len/Keys/Values/Empty appended) and "
         "each recorded history is decided inside Coq by the verified lin_check / range_ok_b; the sequential model is tied to "
@@ -26,7 +30,10 @@ CFG = {
     ),
     "level_note": (
         "Concurrency is PARTIAL: histories are samples of the Go scheduler, no theorem covers the optimistic find/lock/validate/"
-        "link protocol (the LazySkip.v protocol model of DESIGN §4 was not built), upper-lane linking order, the highestLevel CAS, "
+        "link protocol of the Go code itself: LazySkip.v is a hand-written protocol model with no run-time tie to the code (beyond the "
+        "histories), and for it only sortedness/uniqueness and the abs-set frame are proved -- NOT that a successful Add found the key "
+        "absent, that exactly one of several racing same-key Adds/Removes succeeds, lock ownership, or that linearization points lie "
+        "inside the intervals (those need the full lazy-list argument). Also not covered: upper-lane linking order, the highestLevel CAS, "
         "or the memory model. Seeded in-code yield points were NOT added: a `verifYield(k)` line inside Store/Delete/... would "
         "touch existing lines, which hooks must not do; scheduling is perturbed from outside instead (GOMAXPROCS cycling "
         "1/2/4/16, a spinning per-operation barrier that releases all goroutines together in 3 of 4 rounds, seeded "
@@ -46,7 +53,8 @@ CFG = {
     ),
     "theorems": [("C04.Props", ["C04_seq_map", "C04_seq_set", "C04_seq_map_state", "C04_seq_set_state", "C04_len_after_clear",
                                 "C04_lazy_once", "C04_spec_map_laws", "C04_lin_check_map", "C04_lin_check_set",
-                                "C04_lin_segments", "C04_range_ok_b"])],
+                                "C04_lin_segments", "C04_range_ok_b",
+                                "C04_lazyskip_inv", "C04_lazyskip_sorted", "C04_lazyskip_abs_frame"])],
     "trusted": [
         "height oracle: node heights are premises of the refinement theorems (>= 1, what randomLevel() returns); the harness "
         "injects them through the reassignable fastrand.Uint32 and reads them back through the verif accessor VerifShape",
